@@ -3,6 +3,7 @@ package main
 // Calls: contracts, inlining, built-in models, interface contracts; loops: invariants and frames.
 
 import (
+	"sort"
 	"fmt"
 	"go/token"
 	"go/types"
@@ -1551,6 +1552,30 @@ func (x *Exec) lockOp(fr *Frame, st *State, op string, mu SVal, pos token.Pos) {
 	case "RUnlock":
 		x.lockObl(st, fr, "runlock-of-shared("+x.srcText(pos)+")", tb.Eq(c, tb.BVi(8, 1)), pos)
 		st.ghost["muState"] = tb.BVi(8, 0)
+	}
+	if (op == "Lock" || op == "RLock") && len(x.shared) > 0 {
+		// interference: while the mutex was not held other goroutines may have changed the fields it guards, so their
+		// values are arbitrary after every acquisition (only when the property's guarded clause is active)
+		if pv, ok := mu.(*PtrV); ok && pv.Obj != nil && !pv.Obj.Array && !pv.Obj.Dummy {
+			if os, has := st.mem[pv.Obj]; has && os.Val != nil {
+				val := os.Val
+				var names []string
+				for n := range x.shared {
+					names = append(names, n)
+				}
+				sort.Strings(names)
+				if x.sharedAt == nil {
+					x.sharedAt = map[*Object][][]int{}
+				}
+				for _, n := range names {
+					if path, ft, found := fieldByName(pv.Obj.Elem, n); found {
+						val = setPath(val, path, x.memInit(st, pv.Obj, x.symbolic(st, ft, "acquired."+n, true, 1)))
+						x.sharedAt[pv.Obj] = append(x.sharedAt[pv.Obj], path)
+					}
+				}
+				st.mem[pv.Obj] = &ObjState{Val: val}
+			}
+		}
 	}
 	st.events = append(st.events, "lock:"+op)
 }
